@@ -1,4 +1,5 @@
 import KavaVerif.Props.C04
+#print axioms KV.Cdp.C04_source_index_paths
 #print axioms KV.Cdp.C04_genesis_inv
 #print axioms KV.Cdp.C04_invariant_all_histories
 #print axioms KV.Cdp.C04_invariant_step
